@@ -7,6 +7,15 @@ ID = "C48"
 LEAN_TARGETS = ["TornadoModel.C48.Props"]
 THEOREMS = [
     "TornadoModel.C48.escape_eq_spec",
+    "TornadoModel.C48.escape_conforms",
+    "TornadoModel.C48.escape_unique",
+    "TornadoModel.C48.escape_decodes",
+    "TornadoModel.C48.isUnreserved_eq_spec",
+    "TornadoModel.C48.hexUp_eq_spec",
+    "TornadoModel.C48.PctEncoded_unique",
+    "TornadoModel.C48.PctEncoded_decode_unique",
+    "TornadoModel.C48.splitUrl_assemble",
+    "TornadoModel.C48.base_uri_of_parts",
     "TornadoModel.C48.escape_chars",
     "TornadoModel.C48.escape_unreserved_id",
     "TornadoModel.C48.tupleLt_eq_pairLt",
@@ -27,6 +36,10 @@ TRUSTED = [
     "urllib.parse.urlparse on URLs of the shape scheme://authority[/path] (modelled by splitUrl), urllib.parse.quote(safe='~'), "
     "str.upper/lower on ASCII, sorted() on tuples of ASCII strings (any stable comparison sort; insertion sort in the model)",
     "the reading of RFC 5849 §3.4.1/§3.4.2/§3.6 in C48/Spec.lean",
+    "shared between Model and Spec (not independent; tied to Python by the correspondence check only): the UTF-8 encoder `utf8`, "
+    "`splitUrl` (characterised by splitUrl_assemble), ASCII `lowerA`/`upperA`, `joinWith`, `sortBy` (characterised by sortBy_perm + "
+    "sortBy_sorted).  Independent in the Spec: percent-encoding of octets (literal unreserved list, hex table, relation PctEncoded), "
+    "host/port split + default port, byte order of pairs, assembly of base string and key",
 ]
 ASSUMPTIONS = [
     "URLs are scheme://authority[/path] with an ASCII-letter scheme, no userinfo, no ';', '?', '#', no whitespace/control "
@@ -42,8 +55,12 @@ RULE = ("parameter sets (0-8 pairs) over unreserved / reserved / non-ASCII alpha
 EXHAUSTIVE = {"quick": False, "thorough": False}
 CLAUSES = {
     "signature = HMAC-SHA1 over the RFC 5849 base string with the RFC 5849 key": "signature_eq_spec (from base_string_eq_spec, key10a_eq_spec) + tie (hmac.new capture)",
-    "percent-encoded and sorted parameter names and values": "normParams_eq_spec, escape_eq_spec, escape_chars, sortBy_perm, sortBy_sorted, normParams_sorted",
-    "normalized URL": "base_uri_eq_spec",
+    "percent-encoded and sorted parameter names and values": "escape_conforms + escape_unique + escape_decodes (the escaped text is the "
+        "unique text satisfying RFC 5849 §3.6 stated as the relation Spec.PctEncoded, and decodes to the UTF-8 octets only) via "
+        "isUnreserved_eq_spec + hexUp_eq_spec + escape_eq_spec; normParams_eq_spec, escape_chars, sortBy_perm, sortBy_sorted, "
+        "normParams_sorted; tie only: UTF-8 itself (shared `utf8`, compared with str.encode on every case)",
+    "normalized URL": "base_uri_eq_spec (on the URL text, Spec splits it with the shared splitUrl) + splitUrl_assemble + base_uri_of_parts "
+        "(on scheme/authority/path components: no model function on the Spec side); tie only: splitUrl = urlparse on the generated shape",
     "encoded key": "key10a_eq_spec (1.0a); key10_eq_spec_partial / key10_eq_spec_refuted for _oauth_signature (known finding)",
 }
 PARALLEL = True
